@@ -58,7 +58,7 @@ void runScript(const Case &cs, long failAt, Script &sc) {
   int kind = (int)cs.P("kind");
   Conf cf; cf.la = (int)cs.P("la", 1); cf.one = (int)cs.P("one", 1); cf.cost = (int)cs.P("cost"); cf.rec = (int)cs.P("rec"); cf.freemode = (int)cs.P("freemode");
   Conf cfa; cfa.rec = 1; cfa.one = 0;
-  yaep_verif.rec_limit = 20000;
+  yaep_verif.rec_limit = REC_LIMIT;
   Binding *A = newCBinding();
   A->create();
   bool aok = defineGrammar(*A, cs.grams[0]) == 0;
